@@ -112,6 +112,12 @@ templ H9(a *rt.A) {
 	<footer>{ a.S("s2") }</footer>
 }
 
+// style functions: (string, error) when they succeed, declared with a concrete error type when they fail
+templ H10(a *rt.A) {
+	<p style={ a.SFAny("e1") }>x</p>
+	<p style={ a.S("s1"), a.SFAny("e2") }>y</p>
+}
+
 templ H7(a *rt.A) {
 	switch a.K("k1") {
 		case "k0":
@@ -203,6 +209,7 @@ func main() {
 		{name: "H5", exprs: []string{"e1"}, comps: []string{"c1"}}, {name: "H6", exprs: []string{"e1"}, comps: []string{"c1"}},
 		{name: "H7", exprs: []string{"e1", "e2", "e3"}, comps: []string{"c1", "c2"}}, {name: "H8", exprs: []string{"e1"}},
 		{name: "H9", exprs: []string{"e1"}, comps: []string{"c1", "c2", "c3"}},
+		{name: "H10", exprs: []string{"e1", "e2"}},
 	}
 	srcLines := strings.Split(c10Templ, "\n")
 	for i := range hand {
@@ -217,7 +224,7 @@ func main() {
 		}
 		for _, id := range hand[i].exprs {
 			for ln := start; ln < len(srcLines) && !(ln > start && strings.HasPrefix(srcLines[ln], "templ ")); ln++ {
-				if strings.Contains(srcLines[ln], `a.E("`+id+`")`) {
+				if strings.Contains(srcLines[ln], `a.E("`+id+`")`) || strings.Contains(srcLines[ln], `a.SFAny("`+id+`")`) {
 					hand[i].lines[id] = [2]int{ln + 1, ln + 1}
 				} else if strings.Contains(srcLines[ln], "a.E(") && ln+1 < len(srcLines) && strings.Contains(srcLines[ln+1], `"`+id+`",`) {
 					hand[i].lines[id] = [2]int{ln + 1, ln + 3}
